@@ -59,6 +59,15 @@ var c15Datasets = []c15Dataset{
 		},
 		Table: ".config", Row: ".fullname", Col: ".file",
 	},
+	{
+		// (v) rows keyed by the growing .config group alone; the FIRST result has no file configuration at all
+		// (the group is flattened while it is still empty), later results introduce its keys
+		Name: "config-rows-late-keys",
+		Files: []string{
+			"BenchmarkA 1 1 ns/op\ngoos: b\nBenchmarkA 1 2 ns/op\ngoos: a\nBenchmarkA 1 3 ns/op\ngoarch: x\nBenchmarkA 1 4 ns/op\n",
+		},
+		Table: ".fullname", Row: ".config", Col: ".file",
+	},
 }
 
 // c15Body builds everything afresh, adds the results, computes the tables and
